@@ -183,6 +183,9 @@ var barScenarios = []bScenario{
 	{"release(t1) || release(t2) || acq-rel after two flushes", "AFAF", []string{"r", "r", "AR"}},
 	{"flush || flush || release(t1)", "A", []string{"rF", "F"}},
 	{"3 releases after 3 flushes", "AFAFAF", []string{"r", "r", "r"}},
+	{"acq;flush;rel || acq;flush;rel", "", []string{"AFR", "AFR"}},
+	{"acq-rel || acq-rel || flush || flush", "", []string{"AR", "AR", "F", "F"}},
+	{"release(t1) || flush;flush || acq-rel", "A", []string{"r", "FF", "AR"}},
 }
 
 var fullPoints = []int{skiplist.VpAcqLoaded, skiplist.VpAcqIncremented, skiplist.VpRelBeforeDec, skiplist.VpRelLatched, skiplist.VpRelEnqueued,
@@ -437,7 +440,7 @@ func init() {
 		}
 		return 2*len(barScenarios) + 28
 	}
-	rule := "cases 0..2S-1 explore the S=10 scripted scenarios ({acq-rel ‖ flush}, {A ‖ A ‖ F}, {A ‖ F ‖ F}, {hold ‖ F;F}, {acq;flush;rel ‖ A}, {release(t1) ‖ release(t2) after two flushes}, nested holder, 3-actor variants) under the serialized controller: every hook point of Acquire/Release/FlushSession/doCleanup is a scheduling point, exactly one actor runs between points, the choice tree is enumerated depth-first by re-execution (first S cases at the granularity the properties name, next S at full granularity) up to a bound, then seeded random schedules; remaining cases are real-concurrency stress rounds (1-16 accessors with nested holds and flushes while holding, 1-4 flushers) judged with conservative logical stamps. " +
+	rule := "cases 0..2S-1 explore the S=13 scripted scenarios ({acq-rel ‖ flush}, {A ‖ A ‖ F}, {A ‖ F ‖ F}, {hold ‖ F;F}, {acq;flush;rel ‖ A}, {release(t1) ‖ release(t2) after two flushes}, nested holder, 3-actor variants) under the serialized controller: every hook point of Acquire/Release/FlushSession/doCleanup is a scheduling point, exactly one actor runs between points, the choice tree is enumerated depth-first by re-execution (first S cases at the granularity the properties name, next S at full granularity) up to a bound, then seeded random schedules; remaining cases are real-concurrency stress rounds (1-16 accessors with nested holds and flushes while holding, 1-4 flushers) judged with conservative logical stamps. " +
 		"evaluations = schedules executed + stress rounds; distinct = distinct (actor, point) arrival-order signatures"
 	rt.Register(&rt.Prop{
 		ID: "C16", Level: "exploration",
